@@ -42,7 +42,10 @@ type c19World struct {
 func newC19World(r *rand.Rand) *c19World {
 	w := &c19World{}
 	for i := 0; i < 12; i++ {
-		w.msgs = append(w.msgs, mon.RandBytes(r, []int{0, 1, 31, 64, 167, 168, 169, 500, 2000}[r.IntN(9)]))
+		// every shared message and signature is the front of a larger buffer (spare capacity with a
+		// known pattern): the fingerprint covers the whole buffer, so a callee that appends to an
+		// argument is seen even though len() and the visible bytes stay the same
+		w.msgs = append(w.msgs, withSpare(mon.RandBytes(r, []int{0, 1, 31, 64, 167, 168, 169, 500, 2000}[r.IntN(9)])))
 	}
 	w.kmac, _ = hash.NewKMAC_128(mon.RandBytes(r, 32), []byte("c19"), 64)
 	for _, m := range w.msgs {
@@ -56,7 +59,7 @@ func newC19World(r *rand.Rand) *c19World {
 		var row [][]byte
 		for _, m := range w.msgs {
 			s, _ := sk.Sign(m, w.xof)
-			row = append(row, s)
+			row = append(row, withSpare(s))
 		}
 		w.sigs = append(w.sigs, row)
 		p, _ := crypto.BLSGeneratePOP(sk)
@@ -115,8 +118,9 @@ func newC19World(r *rand.Rand) *c19World {
 func (w *c19World) fingerprint(after bool) string {
 	h := sha256.New()
 	add := func(b []byte) { h.Write([]byte{byte(len(b)), byte(len(b) >> 8)}); h.Write(b) }
+	addFull := func(b []byte) { h.Write([]byte{byte(len(b)), byte(len(b) >> 8)}); h.Write(b[:cap(b)]) } // withSpare buffers
 	for _, m := range w.msgs {
-		add(m)
+		addFull(m)
 	}
 	for _, o := range w.kmacOut {
 		add(o)
@@ -130,7 +134,7 @@ func (w *c19World) fingerprint(after bool) string {
 		}
 		add(w.pops[k])
 		for _, s := range w.sigs[k] {
-			add(s)
+			addFull(s)
 		}
 	}
 	for _, s := range w.aggSig {
